@@ -62,6 +62,10 @@ def _dep(h, shape, pname, lo, hi):
 
 
 def _given(h, kind):
+    if kind == "int":          # integer-typed conditioning values (e.g. a wind-speed bin index, np.arange grid)
+        return 2, [2]
+    if kind == "intvec":
+        return np.array([1, 3]), [1, 3]
     n = {"scalar": 1, "vec2": 2, "vec3": 3}[kind]
     gs = [h.real(f"g{i}", 0.1, 2.0) for i in range(n)]
     return (gs[0] if kind == "scalar" else h.arr(gs)), gs
@@ -87,7 +91,8 @@ def h_conditional(h):
         xs = [h.real(f"p{i}", 0.02, 0.98) for i in range(n)]
     else:
         xs = [h.real(f"x{i}", 0.1, 8.0) for i in range(n)]
-    x = xs[0] if h.cfg["given"] == "scalar" else h.arr(xs)
+    scalar_given = h.cfg["given"] in ("scalar", "int")
+    x = xs[0] if scalar_given else h.arr(xs)
 
     def theta_at(g):
         th = dict(fixed)
@@ -100,7 +105,7 @@ def h_conditional(h):
         k = 2
         got = cond.draw_sample(k, given, random_state=h.generator(7))
         th = theta_at(given)
-        size = k if h.cfg["given"] == "scalar" or not dep_names else (k, n)
+        size = k if scalar_given or not dep_names else (k, n)
         ref = fam.ref(th)
         exp = getattr(h.K, fam.scipy).rvs(*ref, size=size, random_state=h.generator(7))
         h.check(np.shape(got) == np.shape(exp), "sample-shape", f"{np.shape(got)} vs {np.shape(exp)}")
@@ -111,7 +116,7 @@ def h_conditional(h):
     for j in range(n):
         gj = gs[j]
         ej = expected(h, fam, method, xs[j], theta_at(gj))
-        aj = got if h.cfg["given"] == "scalar" else got[j]
+        aj = got if scalar_given else got[j]
         h.close(aj, ej, "template-at-dependence-values")
     # (b) vectorised == one at a time
     if n > 1:
@@ -172,7 +177,7 @@ def h_chained(h):
 
 def obligations(tier):
     fams = SHIPPED if tier == "quick" else SHIPPED + ["ScipyWeibullMin", "ScipyGamma"]
-    givens = ["scalar", "vec2"] if tier == "quick" else ["scalar", "vec2", "vec3"]
+    givens = ["scalar", "vec2", "int", "intvec"] if tier == "quick" else ["scalar", "vec2", "vec3", "int", "intvec"]
     shapes = ["linear", "exp3"] if tier == "quick" else ["linear", "exp3", "power3"]
     for fname in fams:
         fam = FAMILIES[fname]
